@@ -690,6 +690,39 @@ func c18Params(c *Ctx, decls map[*types.Func]*ast.FuncDecl) {
 	} else {
 		r.Unres("R18c", "CombineHeaders", "", "not found")
 	}
+	// (4) the operation's header parameters come from ONE list merged by name (CombineHeaders), converted once
+	if pm, conv, comb := c.P.Func(pkgOpenAPI, "Generator.processMethod"), c.P.Func(pkgOpenAPI, "convertHeadersToParameters"), c.P.Func("internal/annotations", "CombineHeaders"); pm != nil && conv != nil && comb != nil {
+		decl := c.P.Decls[pm]
+		info := c.P.DeclPkg[pm].TypesInfo
+		n, bad := 0, ""
+		var bpos token.Pos
+		ast.Inspect(decl.Body, func(nd ast.Node) bool {
+			call, ok := nd.(*ast.CallExpr)
+			if !ok || Callee(info, call) != conv || len(call.Args) != 1 {
+				return true
+			}
+			n++
+			arg := ast.Unparen(call.Args[0])
+			if id, ok := arg.(*ast.Ident); ok {
+				if d := localDef(info, decl.Body, id); d != nil {
+					arg = ast.Unparen(d)
+				}
+			}
+			if c2, ok := arg.(*ast.CallExpr); !ok || Callee(info, c2) != comb {
+				bad = types.ExprString(call.Args[0])
+				bpos = call.Pos()
+			}
+			return true
+		})
+		pos := c.P.Pos(decl.Pos())
+		if bad != "" {
+			pos = c.P.Pos(bpos)
+		}
+		r.Check(n == 1 && bad == "", "R18c", "operation header parameters: one conversion of the list merged by annotations.CombineHeaders", pos,
+			fmt.Sprintf("processMethod converts header declarations to parameters %d time(s), from %s: a header declared by the service and again by the method becomes two parameters with the same name and location in one operation, which OpenAPI forbids", n, map[bool]string{true: "a list that is not the CombineHeaders merge (" + bad + ")", false: "the merged list"}[bad != ""]))
+	} else {
+		r.Unres("R18c", "processMethod / convertHeadersToParameters", "", "not found")
+	}
 }
 
 func c18PerService(c *Ctx) {
